@@ -326,6 +326,23 @@ def run(world, rep, tier, only=None):
         rep.ob("C01.j", site(f, "hash version adjusted for UNSIGNED_HASH#%d" % _occ_call(f, c)), ok,
                "ext2fs_dirhash2(%s, …): the version went through `+= 3 under s_flags & EXT2_FLAGS_UNSIGNED_HASH`" % how)
 
+    # ------------------------------------------------------------------ C01.k positions in the refcount list do not survive a collapse
+    # pass 1 keeps the outstanding references of shared xattr blocks in a sorted array; refcount_collapse() drops
+    # entries and shrinks `count`, so an index derived from `count` before it is stale afterwards (a lost entry makes
+    # pass 1 clone or clear a block that was fine and the next run disagree).
+    erf = world.program("e2fsck", plain=True).fns_in_file("e2fsck/ea_refcount.c")     # functions as written
+    shr = {g.name for g in erf if any(T.last_field(n.ev["lhs"]) == ("ea_refcount", "count") and n.ev.get("o") in ("=", "--", "-=")
+                                      for n in g.events("S"))}
+    nk = 0
+    for f in erf:
+        for c in calls_to(f, *sorted(shr)) if shr else []:
+            nk += 1
+            st = stale_after_call(f, c, "count")
+            rep.ob("C01.k", site(f, "no index computed from count is used after %s#%d" % (T.call_names(c.ev["x"])[0], _occ_call(f, c))),
+                   not st, "locals read from ->count before the call and used after it: %s" %
+                   [(v, m.line) for v, m in st][:3])
+    rep.floor("C01.k calls that shrink the refcount list", nk, 2)
+
     # ------------------------------------------------------------------ C01.g bitmap checksum verification skipped only for a dirty own bitmap
     p5 = {f.name: f for f in prog.fns_in_file("e2fsck/pass5.c")}
     pass5 = p5.get("e2fsck_pass5")
